@@ -392,6 +392,11 @@ func (s *httpServer) doDeleteTopic(w http.ResponseWriter, req *http.Request, ps 
 		return nil, http_api.Err{404, "TOPIC_NOT_FOUND"}
 	}
 
+	// the metadata written while the topic was being deleted still listed it:
+	// persist again now that it is gone so a crash does not resurrect it
+	s.nsqd.Lock()
+	s.nsqd.PersistMetadata()
+	s.nsqd.Unlock()
 	return nil, nil
 }
 
@@ -469,6 +474,11 @@ func (s *httpServer) doDeleteChannel(w http.ResponseWriter, req *http.Request, p
 		return nil, http_api.Err{404, "CHANNEL_NOT_FOUND"}
 	}
 
+	// the metadata written while the channel was being deleted still listed it:
+	// persist again now that it is gone so a crash does not resurrect it
+	s.nsqd.Lock()
+	s.nsqd.PersistMetadata()
+	s.nsqd.Unlock()
 	return nil, nil
 }
 
